@@ -162,6 +162,12 @@ response to it can follow): the flush is unconditional in the TCP clients, the W
 `send` (re-extracted; an absent or conditional flush is read as "may not flush"). -/
 theorem requests_are_flushed : Gen.Mux.writeFlushes = [true, true, true] := by decide
 
+/-- Premise of the model's `rmatch` step (a frame is read as a whole, and the next read starts at the next
+frame boundary): the response loops have no timer, sleep or deadline arm of their own that could
+interrupt a partly read frame (`Gen.Mux.readersHaveNoTimer`, re-extracted; any such arm is a pessimistic
+fact). "Each call gets its own response" depends on the reader never resuming inside a frame. -/
+theorem reader_never_resumes_inside_a_frame : Gen.Mux.readersHaveNoTimer = [true, true, true] := by decide
+
 /-- The WebSocket client is notify-aware (fact re-extracted from `spawn_response_loop`). -/
 theorem ws_is_notify_aware : Gen.Mux.wsCfg.notifyAware = true := by decide
 
